@@ -12,6 +12,8 @@ from proto import A, dumps
 from run import Case
 import zoo
 
+from kernels_tie import optional_tree as optional_obligation  # noqa: F401  (`class Tree` regenerated from tree.py: optional bridge)
+
 PROPERTY = "C06"
 LEAN_MODULE = "PyOak.Props.C06All"
 THEOREMS = ["PyOak.C06." + t for t in [
